@@ -64,6 +64,15 @@ class Parsed(object):
         self.start, self.end, self.canonical = start, end, canonical
 
 
+def _concrete(v, lo, hi):
+    """v is known to lie in lo..hi: return it as a plain int (under symbolic execution this
+    pins the position in the buffer, so that later indexing stays cheap)"""
+    for k in range(lo, hi):
+        if v == k:
+            return k
+    return hi
+
+
 def parse(data, pos=0):
     """Read one tag at data[pos:].
 
@@ -123,7 +132,7 @@ def parse(data, pos=0):
         return Parsed(cls, num, lvt, pos, pos, canonical)
     if pos + lvt > n:
         return None
-    return Parsed(cls, num, lvt, pos, pos + lvt, canonical)
+    return Parsed(cls, num, lvt, pos, _concrete(pos + lvt, pos, n), canonical)
 
 
 TRUNCATED, CANONICAL, TOLERATED = 'truncated', 'canonical', 'tolerated'
